@@ -78,8 +78,52 @@ def tame_ints(st, limit=300):
     return st
 
 
+VEC_KEY = {"BOOLVECTOR": "bvec", "INTVECTOR": "ivec", "FLOATVECTOR": "fvec"}
+# small pool with duplicates, both zeros, infinities and NaN: exercises sort stability and unordered comparisons
+F32_SORT = [0x00000000, 0x80000000, fbits(1.0), fbits(1.0), fbits(-1.0), fbits(2.5), 0x7f800000, 0xff800000, 0x7fc00000, fbits(0.5)]
+
+
+def rand_vec(rng, key, n):
+    if key == "bvec": return [rng.random() < 0.5 for _ in range(n)]
+    if key == "ivec":
+        k = rng.randrange(3)
+        if k == 0: return [rng.randrange(-3, 4) for _ in range(n)]
+        if k == 1: return [rng.choice(I32) for _ in range(n)]
+        return [rng.choice([rand_i32(rng), rng.randrange(0, 13)]) for _ in range(n)]
+    k = rng.randrange(3)
+    if k == 0: return [rng.choice(F32_SORT) for _ in range(n)]
+    if k == 1: return [fbits(rng.randrange(-8, 9) / 2) for _ in range(n)]
+    return [rand_f32(rng) for _ in range(n)]
+
+
+def shape_vector_case(rng, name, st):
+    """operand shaping for the vector families: two operand vectors of equal / unequal / zero length on top,
+    the top INTEGER (offset, index, size) near the vector lengths or extreme; everything else stays random"""
+    key = VEC_KEY[name.split(".")[0]]
+    if rng.random() < 0.85:
+        n2 = rand_vec_len(rng)
+        n1 = n2 if rng.random() < 0.35 else rand_vec_len(rng)
+        st[key] = [rand_vec(rng, key, n1), rand_vec(rng, key, n2)][rng.randrange(0, 8) == 0:] + st[key][:rng.randrange(0, 3)]
+    lens = [len(v) for v in st[key][:2]] + [len(st[key])] or [0]
+    if rng.random() < 0.85:
+        m = max(lens)
+        r = rng.random()
+        z = rng.randrange(-m - 2, m + 3) if r < 0.75 else rng.choice([-2147483648, -2147483647, 2147483646, 2147483647]) if r < 0.9 else rand_i32(rng)
+        if st["int"] and rng.random() < 0.9: st["int"][0] = z
+        elif rng.random() < 0.8: st["int"].insert(0, z)
+    return st
+
+
+import os
+SINE_NEGATIVE = os.environ.get("PUSHR_SINE_NEG", "1") == "1"    # negative FLOATVECTOR.SINE lengths (a hang on the code before fix C09-07)
+
+
 def step_case(rng, name, names, safe_names, profile=None):
     st = rand_state(rng, names, safe_names)
+    if name.split(".")[0] in VEC_KEY and "." in name:
+        st = shape_vector_case(rng, name, st)
+    if name == "FLOATVECTOR.SINE":
+        st["int"] = [rng.randrange(-3 if SINE_NEGATIVE else 0, 13) for _ in st["int"]]
     if name in ALLOCATING:
         st = tame_ints(st)
         st["float"] = [fbits(rng.choice([0.0, 0.5, 1.0, 1.5, 2.0, 3.0])) for _ in st["float"]]
